@@ -25,9 +25,12 @@ abbrev State := Nat → Option (List String)
 
 def init : State := fun _ => none
 
+/-- `recv c fm`: `unpack_serializable(cls_c, datagram of a cls_c message)`; `fm` lists, per field of `c` in order, the
+    dataclass-payload class of which at least one nested instance is present in that field of the datagram (`none`: a plain
+    field or an empty list) — nested members are decoded by a recursive `unpack_serializable(member class, …)` -/
 inductive Op where
-  | inst (c : Nat)    -- `cls(...)`
-  | recv (c : Nat)    -- `unpack_serializable(cls, …)`
+  | inst (c : Nat)                          -- `cls(...)`
+  | recv (c : Nat) (fm : List (Option Nat))
 deriving Repr, DecidableEq
 
 /-- `cls(...)`: convert_to_payload runs unconditionally -/
@@ -51,18 +54,33 @@ def lookupNames (parent : Nat → Option Nat) (st : State) (fuel c : Nat) : List
   | some a => (st a).getD []
   | none => []
 
-/-- what `unpack_serializable(cls, encoding of an instance of cls)` yields: `none` = raises, `some a` = an instance of class `a` -/
-def recvResult (all : Nat → List String) (parent : Nat → Option Nat) (st : State) (fuel c : Nat) : Option Nat :=
+/-- members met while decoding with the layout of class `a` (its fields are a prefix of the datagram's fields) -/
+def membersMet (all : Nat → List String) (a : Nat) (fm : List (Option Nat)) : List Nat :=
+  (fm.take (all a).length).filterMap id
+
+/-- first member class that has never been converted (members have no base classes of their own here) -/
+def firstUnconverted (st : State) (ms : List Nat) : Option Nat := ms.find? (fun m => (st m).isNone)
+
+/-- what `unpack_serializable(cls, datagram)` yields: `none` = raises, `some a` = an instance of class `a` -/
+def recvResult (all : Nat → List String) (parent : Nat → Option Nat) (st : State) (fuel c : Nat)
+    (fm : List (Option Nat)) : Option Nat :=
   match owner parent st fuel c with
-  | some a => some a
+  | some a => if (firstUnconverted st (membersMet all a fm)).isNone then some a else none
   | none => if (all c).isEmpty then some c else none
+
+/-- the class whose conversion a reception triggers -/
+def recvTarget (all : Nat → List String) (parent : Nat → Option Nat) (fuel : Nat) (st : State) (c : Nat)
+    (fm : List (Option Nat)) : Nat :=
+  match owner parent st fuel c with
+  | some a =>
+    match firstUnconverted st (membersMet all a fm) with
+    | some m => m        -- the member's `cls()` converts it, then raises: nothing else happens
+    | none => a          -- `a(...)` is constructed: `a` is (re)converted, `c` is not
+  | none => c            -- `cls()` reaches `__new__` (conversion) before `__init__` raises
 
 def step (all : Nat → List String) (parent : Nat → Option Nat) (fuel : Nat) (st : State) : Op → State
   | .inst c => instantiate all st c
-  | .recv c =>
-    match owner parent st fuel c with
-    | some a => instantiate all st a          -- `a(...)` is constructed: `a` is (re)converted, `c` is not
-    | none => instantiate all st c            -- `cls()` reaches `__new__` (conversion) before `__init__` raises
+  | .recv c fm => instantiate all st (recvTarget all parent fuel st c fm)
 
 def run (all : Nat → List String) (parent : Nat → Option Nat) (fuel : Nat) (ops : List Op) : State :=
   ops.foldl (step all parent fuel) init
@@ -90,9 +108,7 @@ theorem good_step {all : Nat → List String} {parent : Nat → Option Nat} {fue
     (hg : Good all st) (op : Op) : Good all (step all parent fuel st op) := by
   cases op with
   | inst c => exact good_instantiate hg c
-  | recv c =>
-    simp only [step]
-    cases owner parent st fuel c <;> exact good_instantiate hg _
+  | recv c fm => exact good_instantiate hg _
 
 theorem keeps_instantiate {all : Nat → List String} {st : State} {c : Nat} (h : st c = some (all c)) (d : Nat) :
     (instantiate all st d) c = some (all c) := by
@@ -105,9 +121,7 @@ theorem keeps_step {all : Nat → List String} {parent : Nat → Option Nat} {fu
     (h : st c = some (all c)) (op : Op) : (step all parent fuel st op) c = some (all c) := by
   cases op with
   | inst d => exact keeps_instantiate h d
-  | recv d =>
-    simp only [step]
-    cases owner parent st fuel d <;> exact keeps_instantiate h _
+  | recv d fm => exact keeps_instantiate h _
 
 theorem foldl_keeps (all : Nat → List String) (parent : Nat → Option Nat) (fuel : Nat) (ops : List Op) (st : State) (c : Nat)
     (hc : Op.inst c ∈ ops ∨ st c = some (all c)) : (ops.foldl (step all parent fuel) st) c = some (all c) := by
@@ -125,11 +139,16 @@ theorem foldl_keeps (all : Nat → List String) (parent : Nat → Option Nat) (f
       · left; exact h1
     · right; exact keeps_step hc o
 
-/-! ### container type of sequence fields
+/-! ### container type of sequence fields: the `fix_unpack_<field>` rule `convert_to_payload` installs
 
   `type_map` sends `list[T]`, `tuple[T]` and `set[T]` to the same array / payload-list format and the packers decode a
-  Python `list`; since 60e7956 `convert_to_payload` installs `fix_unpack_<field> = tuple | set` for fields annotated
-  `tuple[...]` / `set[...]`, so the compiled `from_unpack_list` restores the annotated container. -/
+  Python `list`.  `convert_to_payload` (60e7956, 08ba1db, 26350ad) looks at the annotation of the field IN THIS CLASS and at
+  the `fix_unpack_<field>` attribute the class inherits:
+    * inherited rule absent, or one of the library's own (`_to_tuple`, `_to_set`, `_keep_container`):
+        annotation tuple / set → install `_to_tuple` / `_to_set`;
+        annotation list        → install `_keep_container` if a rule was inherited, else install nothing;
+    * any other inherited rule (the user's, also the builtins `tuple` / `set`) is kept.
+  The compiled `from_unpack_list` applies the rule found on the class to the decoded list. -/
 
 inductive Container where
   | list | tuple | set
@@ -140,10 +159,51 @@ def Container.ofString : String → Option Container
 def Container.toString : Container → String
   | .list => "list" | .tuple => "tuple" | .set => "set"
 
-/-- container type of the decoded field for a field annotated with the given container -/
-def decodedContainer : Container → Container
-  | .list => .list      -- the packer's list as it is
-  | .tuple => .tuple    -- fix_unpack_<field> = tuple
-  | .set => .set        -- fix_unpack_<field> = set
+inductive Rule where
+  | toTuple | toSet | keep      -- the library's own
+  | user (result : Container)   -- a user-defined rule; what it returns is the user's business
+deriving Repr, DecidableEq
+
+def Rule.own : Rule → Bool
+  | .user _ => false
+  | _ => true
+
+/-- the rule found on a class after `convert_to_payload`, given the rule it inherits and its own annotation of the field -/
+def installRule (inherited : Option Rule) (ann : Container) : Option Rule :=
+  match inherited with
+  | some (.user r) => some (.user r)
+  | _ =>
+    match ann with
+    | .tuple => some .toTuple
+    | .set => some .toSet
+    | .list => if inherited.isSome then some .keep else none
+
+/-- container of the decoded field: the rule applied to the packer's list -/
+def applyRule : Option Rule → Container
+  | none => .list
+  | some .toTuple => .tuple
+  | some .toSet => .set
+  | some .keep => .list
+  | some (.user r) => r
+
+/-- rule on the last class of an inheritance chain whose classes annotate the field as `anns` (base first), each converted
+    after its base -/
+def chainRule (start : Option Rule) (anns : List Container) : Option Rule := anns.foldl installRule start
+
+def libraryOwn (r : Option Rule) : Bool :=
+  match r with
+  | none => true
+  | some x => x.own
+
+theorem installRule_own (r : Option Rule) (ann : Container) (h : libraryOwn r = true) :
+    libraryOwn (installRule r ann) = true ∧ applyRule (installRule r ann) = ann := by
+  cases r with
+  | none => cases ann <;> simp [installRule, libraryOwn, Rule.own, applyRule]
+  | some x =>
+    cases x with
+    | user c => simp [libraryOwn, Rule.own] at h
+    | toTuple => cases ann <;> simp [installRule, libraryOwn, Rule.own, applyRule]
+    | toSet => cases ann <;> simp [installRule, libraryOwn, Rule.own, applyRule]
+    | keep => cases ann <;> simp [installRule, libraryOwn, Rule.own, applyRule]
 
 end Ipv8.C02.Dc
